@@ -314,7 +314,7 @@ func (st *stats) addFailure(idx int64, f failure, cases []runCase, refs *refTabl
 	}
 	note := ""
 	if minimiseIt {
-		m := &minimiser{refs: refs, cls: failClass(f.Oracle), budget: 400}
+		m := &minimiser{refs: refs, cls: failClass(f.Oracle), budget: 1500}
 		before := m.size(cases)
 		cases = m.minimise(cases)
 		st.MinimiseExecs += m.execs
